@@ -24,6 +24,8 @@ STAT_OPS = ("ks", "chi2", "chi2d", "chi2rc")
 
 
 def weights(rng, n, allow_all_zero=False):
+    if allow_all_zero and n > 0 and rng.random() < 0.5:
+        return [0.0] * n          # 0/0: every comparison is false, the code falls back to the last element
     style = rng.random()
     if style < 0.3:
         w = [float(rng.randint(0, 4)) for _ in range(n)]
@@ -233,7 +235,8 @@ def generate(seed, tier):
            "cumsum", "cumsum %s" % hx(1.0), "cumsum %s %s" % (hx(0.0), hx(1.0)), "multinom 0 %s" % hx(1.0), "multinom 3 %s" % hx(2.0),
            "rcont2 3 ; 1 2", "rcont2 1 2 ; 3", "rcont2 ; ", "rcont2 1 2 ; 2 2", "rcont2 0 0 ; 0 0", "rcont2 0 5 ; 5 0", "rcont2 0 0 0 ; 0 0 0 0",
            "ctest 0 2 2 0 0 1 1", "ctest 5 2 2 0 1 0 1", "ctest 5 1 2 3 4", "ctest 0 2 2 1 1 1 1", "ctest 3 2 2 1 1 1 1", "ctest 5 2 2 1 0 0 1", "ctest 40 2 2 0 1 1 0", "ctest 1 2 2 1 0 0 1",
-           "pickw 0 1 2 3 ; %s %s %s" % (hx(0), hx(0), hx(0)), "samplew 0 3 1 2 3 ; %s %s %s" % (hx(0), hx(0), hx(0))]
+           "pickw 0 1 2 3 ; %s %s %s" % (hx(0), hx(0), hx(0)), "samplew 0 3 1 2 3 ; %s %s %s" % (hx(0), hx(0), hx(0)),
+           "pickwc 1 2 3 ; %s %s %s" % (hx(0), hx(0), hx(0)), "samplew 1 4 1 2 3 ; %s %s %s" % (hx(0), hx(0), hx(0)), "pickw 1 1 2 3 ; %s %s %s" % (hx(0), hx(0), hx(0))]
     for j, s in enumerate(seeds[:4]):
         cases.append(["case edge-%d" % j, "seed %d" % s] + bad)
     # 5. statistical exploration
